@@ -467,13 +467,25 @@ def r_shuf(ctx):
                 if tg[0] == 'sub' and idx is not None and idx[0] == 'tuple' and len(idx) == 3 and \
                         idx[1] == ('slice', NONE, NONE, NONE) and idx[2][0] == 'c':
                     cols.setdefault(idx[2][1], []).append((nd, val))
+                elif tg[0] == 'sub' and idx is not None and idx[0] == 'tuple' and len(idx) == 3 and \
+                        idx[1] == ('slice', NONE, NONE, NONE) and idx[2][0] == 'iter' and is_call(idx[2][1], 'builtins.range'):
+                    # for j in range(1, 4): table[:, j] = j
+                    rv = feval(idx[2][1], lambda x: UNKNOWN)
+                    if rv is not UNKNOWN and val == idx[2]:
+                        for j_ in rv:
+                            cols.setdefault(j_, []).append((nd, ('c', j_)))
+                    elif rv is not UNKNOWN and val[0] == 'c':
+                        for j_ in rv:
+                            cols.setdefault(j_, []).append((nd, val))
+                    else:
+                        other.append((nd, tg))
                 elif tg[0] == 'sub' and idx is not None and idx[0] == 'slice' and idx == ('slice', NONE, NONE, NONE):
                     pass        # whole-table broadcast: judged by rows-start-as-identity
                 elif tg[0] == 'sub' and idx is not None and idx[0] != 'tuple' and isinstance(d.extra.value, ast.Name):
                     rowstores.append((nd, idx, val, nd.stmt.value))
                 else:
                     other.append((nd, tg))
-    ident = set(cols) == {1, 2, 3} and all(len(v) == 1 and v[0][1] == ('c', c) for c, v in cols.items())
+    ident = set(cols) - {0} == {1, 2, 3} and all(len(v) == 1 and v[0][1] == ('c', c) for c, v in cols.items())
     # broadcast forms: table[:] = range(4) / arange(4) / [0, 1, 2, 3]
     for nd in f.nodes:
         for d in nd.defs:
@@ -490,9 +502,11 @@ def r_shuf(ctx):
               'the initial rows are not the identity permutation: column stores %s'
               % {c: [show(v)[:10] for _, v in vs] for c, vs in cols.items()},
               inputs='every row: a value is missing / duplicated, so rows are not permutations of 0..3')
-    run.check(not other, 'R-SHUF', f, 'no-other-writer', other[0][0].lineno if other else f.node.lineno,
-              'no other store into the table', 'the table is also written at %s' % (show(other[0][1])[:60] if other else ''),
-              inputs='every table')
+    if other:
+        run.undecided('R-SHUF', f, 'no-other-writer', other[0][0].lineno,
+                      'the table is also written at %s, a store this rule does not interpret' % show(other[0][1])[:60])
+    else:
+        run.ok('R-SHUF', f, 'no-other-writer', f.node.lineno, 'no other store into the table')
     # row write-back: value is a name bound to the row view table[i], mutated only by random.shuffle
     n = 0
     for nd, idx, val, vast in rowstores:
@@ -759,13 +773,28 @@ def r_repr(ctx):
                     v = v[1][1]
                 ok = v[0] == 'sub' and v[1][0] == 'sub' and K.kind(v[1][1], f) == 'ACC' and v[1][2] == key and \
                     K.row_of_pred(v[2], f) == v[1]
-                run.check(ok, 'R-REPR', f, 'latter-map-entry', nd.lineno, 'latter_map[v] = live entries of ACC[v]',
-                          'latter_map[%s] receives %s: not the live entries of the row of the same vertex'
-                          % (show(key)[:40], show(val)[:80]), inputs='every graph')
+                wit = v[0] == 'sub' and v[1][0] == 'sub' and K.kind(v[1][1], f) == 'ACC' and v[1][2] != key
+                # parallel iteration: for key, row in zip(KEYS, ACC[KEYS]) -- row i belongs to key i
+                if not ok and v[0] == 'sub' and v[1][0] == 'iter' and key[0] == 'iter' and v[1][2] == key[2] and \
+                        v[1][1][0] == 'sub' and K.kind(v[1][1][1], f) == 'ACC' and v[1][1][2] == key[1] and \
+                        K.row_of_pred(v[2], f) == v[1]:
+                    ok = True
+                if not ok and v[0] == 'sub' and v[1][0] == 'iter' and key[0] == 'iter' and v[1][2] == key[2] and \
+                        v[1][1][0] == 'sub' and K.kind(v[1][1][1], f) == 'ACC' and v[1][1][2] != key[1]:
+                    wit = True
+                _tri(run, ok, wit, 'R-REPR', f, 'latter-map-entry', nd.lineno, 'latter_map[v] = live entries of ACC[v]',
+                     'latter_map[%s] receives %s: not the live entries of the row of the same vertex'
+                     % (show(key)[:40], show(val)[:80]), inputs='every graph')
                 # keys: vertices with at least one live entry
                 okk = key[0] == 'iter' and any(K.row_of_pred(x, f) is not None for x in walk_term(key[1]))
-                run.check(okk, 'R-REPR', f, 'latter-map-keys', nd.lineno, 'keys are the vertices with a live entry',
-                          'the keys of the latter map iterate %s' % show(key)[:80], inputs='graphs with dead vertices')
+                # a witness: the keys run over every row index (range(len(ACC)) / enumerate) with no liveness condition
+                allrows = key[0] in ('idx', 'iter') and not any(K.row_of_pred(x, f) is not None for x in walk_term(key)) and \
+                    not any(K.row_of_pred(x, f) is not None or K.out_degree_row(x, f) is not None
+                            for a_, p_ in ctx.conds(f, nd) for x in walk_term(a_)) and \
+                    (key[0] == 'idx' or is_call(key[1], 'builtins.range'))
+                _tri(run, okk, allrows, 'R-REPR', f, 'latter-map-keys', nd.lineno, 'keys are the vertices with a live entry',
+                     'the keys of the latter map iterate %s with no liveness condition: vertices without arcs get an (empty) entry'
+                     % show(key)[:80], inputs='graphs with dead vertices')
     run.floor('R-REPR', 'stores in accessor_to_latter_map', n, 1)
     g = ctx.p.func('dsw.graphized.accessor_to_adjacency_matrix')
     m = 0
